@@ -8,9 +8,9 @@ CONSTANTS
   Region = "US915"
   MaxJoins = 2
   MaxDown = 1
-  DlSet = {0, 18, 127, 8}
+  DlSet = {0, 18, 127}
   DelSet = {0, 1, 15}
-  CfKinds = {"none", "t1ok", "t1zero", "rfu"}
+  CfKinds = {"t1ok", "t1zero", "rfu"}
 VIEW JView
 INVARIANTS Emit
 CHECK_DEADLOCK FALSE
